@@ -20,7 +20,8 @@ RULE = (
     "Heartbeat, TestRequest through send_msg (must be refused) and through send_test_req, Logon, Logout, ResendRequest, Reject, "
     "SequenceReset and PossDup retransmissions carrying their own number), in every state reached (before Logon, after Logon, "
     "awaiting a resend, disconnected); inbound frames that make the library send (Logon, TestRequest, a gap, a peer ResendRequest "
-    "over a replayable range, a too-low number, a wrong CompID); link break and reconnect. After every operation: the new frames "
+    "over a replayable range, a too-low number, a wrong CompID); link break (EOF / reset / OSError on read, or a drain that fails after the "
+    "frame was written) and reconnect. After every operation: the new frames "
     "(no PossDupFlag, not SequenceReset) written in the step continue the model counter without hole or repeat, "
     "recover_msg(OUTBOUND, n) returns exactly the bytes written, live next_num_out and the stored one (second load path) equal "
     "last+1; a send that raised FIXConnectionError wrote nothing, left no row and moved no counter. Non-trivial = history with >=1 "
@@ -221,12 +222,18 @@ def run_history(acc, role, n_out, n_in, logon_first, ops, maxlen, frame_hook=Non
                 libsent += n_new
             elif k == "break":
                 if b.link.alive:
-                    b.link.break_(["eof", "reset", "oserror"][uid % 3])
+                    b.link.break_(["eof", "reset", "oserror", "drain"][uid % 4])
                     b.w.idle()
                     b.w.advance(1.01)
                     flags.add("break")
                 settle(step, False)
             elif k in ("reconnect", "reconnect+logon"):
+                if not b.disconnected() and not b.link.alive:
+                    # a failing drain does not disconnect by itself: the OS reports the dead peer on read eventually
+                    b.link.readers[b.side].feed_eof()
+                    b.w.idle()
+                    b.w.advance(1.01)
+                    settle(step + " (eof)", False)
                 if not b.disconnected():
                     continue
                 link_no += 1
